@@ -3,7 +3,7 @@ from props import PROPS, budget
 
 # ---------------------------------------------------------------- C14
 # kind "faults": one scripted exchange of a real upstream against a fake loopback server (harness/cmd/implrun/c14.go)
-#   <id> tr=<udp|tcp|tcpp|tls|tlsp|doh> pool=<tok,..|-> dial=<tok,..|-> dl=<ms>
+#   <id> tr=<udp|tcp|tcpp|tls|tlsp|doh|doq|pfake> pool=<tok,..|-> dial=<tok,..|-> dl=<ms>
 DL_WAIT = (300, 400, 500)      # cases that are expected to end at the deadline
 DL_EARLY = 1200                # cases expected to end early: any return before the deadline proves "not waited out"
 
@@ -22,7 +22,7 @@ def c14_gen(rng, tier):
         dl = rng.choice(DL_WAIT) if wait else DL_EARLY
         out.append(_line(len(out), tr, pool, dial, dl, conc))
 
-    reps = budget(tier, 1, 6)
+    reps = budget(tier, 3, 40)
     for _ in range(reps):
         # --- fault x placement matrix on fresh connections (dial / write / read)
         for tr in ("tcp", "tcpp", "tls", "tlsp"):
@@ -63,6 +63,19 @@ def c14_gen(rng, tier):
         add("pfake", [], ["refuse"], False)
         add("doh", ["ifin"], ["ok"], False)
         add("doh", ["ok"], ["ok"], False)
+        # --- DoQ: fresh connection faults, the cached connection closed while idle, failing streams on a live connection
+        add("doq", [], ["ok"], False)
+        for d in ("efin", "garbage", "fin", "rst"):
+            add("doq", [], [d], False)
+        for d in ("blackhole", "silent", "half"):
+            add("doq", [], [d], True)
+        add("doq", ["ok"], ["ok"], False)
+        add("doq", ["ifin"], ["ok"], False)
+        add("doq", ["ifin"], [rng.choice(["fin", "rst", "garbage", "efin"])], False)
+        add("doq", ["ifin"], [rng.choice(["silent", "half"])], True)
+        for p in ("fin", "rst", "garbage"):
+            add("doq", [p], ["ok"], False)
+        add("doq", [rng.choice(["silent", "half"])], ["ok"], True)
         # --- the stale-pool scenario on the one-at-a-time transports: k idle connections, the server kills them all
         for tr in ("tcp", "tls"):
             ks = [1, 5, 6, 7, 12] if tr == "tcp" else [1, 6, 7]
@@ -98,6 +111,8 @@ def c14_must_succeed(f):
     for p in pool:
         if p == "ok":
             continue
+        if f["tr"] == "doq" and p != "ifin":
+            return False    # a server failing every stream of the live QUIC connection is not a healthy server
         if p in ("ifin", "irst", "igarb", "fin", "rst", "idown"):
             continue
         if p == "garbage" and not udp:
@@ -114,7 +129,7 @@ def c14_oracle(line, res):
     if r.get("res") not in ("REPLY", "ERR"):
         return "c14-bad-result %s" % res
     tr = f["tr"]
-    limit = 6 if tr in ("tcp", "tls") else 5
+    limit = 6 if tr in ("tcp", "tls") else (0 if tr == "doh" else 5)
     if r.get("dials", "-") != "-" and int(r["dials"]) > 1:
         return "c14-dials: %s dials in one exchange (a failure on a fresh connection must be returned)" % r["dials"]
     if r.get("att", "-") != "-" and int(r["att"]) > limit + 1:
@@ -152,8 +167,8 @@ def c14_classify(line, res):
 PROPS["C14"] = dict(
     kinds=[dict(name="faults", gen=c14_gen, oracle=c14_oracle, compare=c14_compare, classify=c14_classify,
                 nontrivial=lambda l, r: True, timeout=900)],
-    rule="one scripted exchange of a real upstream.NewUpstream (udp, tcp, tcp+pipeline, tls, tls+pipeline, https/h2) "
-         "against a fake loopback server: refuse / black-hole dial / accept-and-close / silent / half frame / garbage / "
+    rule="one scripted exchange of a real upstream.NewUpstream (udp, tcp, tcp+pipeline, tls, tls+pipeline, https/h2, quic) "
+         "against a fake loopback server (DoQ: quic-go server): refuse / black-hole dial / accept-and-close / silent / half frame / garbage / "
          "FIN / RST on fresh connections, and on pooled connections while idle or at their next use, incl. k = 1, 5, 6, "
          "7, 12 stale idle connections; distinct = distinct case line; all are non-trivial (each runs real sockets)",
     assumptions=["loopback TCP/UDP/TLS delivery; context deadlines 300-500 ms for cases expected to wait, 1200 ms "
@@ -161,7 +176,7 @@ PROPS["C14"] = dict(
                  "a Write of one query is accepted by the kernel promptly (a blocked Write on a pipelined connection "
                  "is bounded by the idle read deadline, not by ctx)"],
     trusted=["C14: real time, kernel socket behaviour, TLS, net/http (DoH) and goroutine scheduling are sampled by the "
-             "fault scripts, not modelled; DoQ is modelled (TQuic) but not driven"],
+             "fault scripts, not modelled"],
     level_note="partial: the theorems cover the retry/select logic of one exchange at atomic-action granularity "
                "against an adversarial environment; wall-clock deadlines, kernel buffering and scheduling are only "
                "sampled by the fault scripts",
